@@ -474,4 +474,60 @@ example :
 
 end TransExamples
 
+/-! ### Session 4: `merge` computes the LEAST common extension ("most general": nothing is bound beyond what the children bound) -/
+
+/-- `Substitutions::merge` answers an upper bound of both arguments (restated from `merge_ext`) that lies below EVERY common
+    upper bound: the substitution the matcher assembles for a node with several children binds exactly what the children
+    bound — no parameter more, no other value.  This is the "most general" half of first-order matching at the level of the
+    substitution algebra, for all substitutions (duplicate keys included). -/
+theorem C09_merge_is_least_upper_bound (σ τ ρ : Subst) (h : merge σ τ = some ρ) :
+    Ext σ ρ ∧ Ext τ ρ ∧ ∀ ρ', Ext σ ρ' → Ext τ ρ' → Ext ρ ρ' := by
+  obtain ⟨h1, h2⟩ := merge_ext τ σ ρ h
+  refine ⟨h1, h2, ?_⟩
+  intro ρ' e1 e2 n v hv
+  cases hs : lookup σ n with
+  | some w =>
+    have := h1 n w hs
+    rw [hv] at this; cases this
+    exact e1 n v hs
+  | none =>
+    cases ht : lookup τ n with
+    | some w =>
+      have := h2 n w ht
+      rw [hv] at this; cases this
+      exact e2 n v ht
+    | none =>
+      exfalso
+      have hm := merge_mem τ σ ρ h (n, v) (lookup_mem ρ n v hv)
+      have hs' := (lookup_none_iff σ n).1 hs
+      have ht' := (lookup_none_iff τ n).1 ht
+      cases hm with
+      | inl hm => exact hs' (List.mem_map.2 ⟨(n, v), hm, rfl⟩)
+      | inr hm => exact ht' (List.mem_map.2 ⟨(n, v), hm, rfl⟩)
+
+/-- consequently two answers of `merge` for the same pair of finite maps agree as finite maps, whatever the order of the
+    arguments: the order of the children of a node cannot change WHAT is bound, only the order of the entries -/
+theorem C09_merge_comm_as_maps (σ τ ρ ρ' : Subst) (h : merge σ τ = some ρ) (h' : merge τ σ = some ρ') :
+    ∀ n, lookup ρ n = lookup ρ' n := by
+  obtain ⟨a1, a2, a3⟩ := C09_merge_is_least_upper_bound σ τ ρ h
+  obtain ⟨b1, b2, b3⟩ := C09_merge_is_least_upper_bound τ σ ρ' h'
+  have e1 : Ext ρ ρ' := a3 ρ' b2 b1
+  have e2 : Ext ρ' ρ := b3 ρ a2 a1
+  intro n
+  cases hl : lookup ρ n with
+  | some v => exact (e1 n v hl).symm
+  | none =>
+    cases hr : lookup ρ' n with
+    | some w => have := e2 n w hr; rw [hl] at this; cases this
+    | none => rfl
+
+/-- non-vacuity: a concrete merge of overlapping, consistent substitutions succeeds in both orders (entries in different
+    order, equal as maps); an inconsistent pair is refused -/
+example :
+    merge [("_ŠČ0", Val.ty (.node "u8" [] []))] [("_ŠČ1", Val.identity), ("_ŠČ0", Val.ty (.node "u8" [] []))]
+      = some [("_ŠČ0", Val.ty (.node "u8" [] [])), ("_ŠČ1", Val.identity)] ∧
+    merge [("_ŠČ1", Val.identity), ("_ŠČ0", Val.ty (.node "u8" [] []))] [("_ŠČ0", Val.ty (.node "u8" [] []))]
+      = some [("_ŠČ1", Val.identity), ("_ŠČ0", Val.ty (.node "u8" [] []))] ∧
+    merge [("_ŠČ0", Val.ty (.node "u8" [] []))] [("_ŠČ0", Val.identity)] = none := by decide
+
 end DI
